@@ -68,6 +68,22 @@ func classify(h histlib.History, at int, f *histlib.Fail) {
 		}
 	case "wal-not-bounded-after-sync":
 		if trunc < h.Cfg.MinCheckpointPageN {
+			// the recorded defect is "the bound is reached one sync late": the sync after the late one
+			// checkpoints. The same failure at the directly preceding sync step means the WAL stayed
+			// over the bound across two successful syncs in a row — that is not the recorded defect.
+			prev := -1
+			for i := at - 1; i >= 0; i-- {
+				if k := h.Ops[i].K; k == "sync" || k == "syncwait" || k == "syncwaitreq" || k == "idle" {
+					prev = i
+					break
+				}
+			}
+			for j, e := range f.Earlier {
+				if prev >= 0 && j < len(f.EarlierAt) && f.EarlierAt[j] == prev && e == "wal-bound-one-sync-late-when-truncate-below-min" {
+					f.Sig = "wal-not-bounded-two-syncs-running"
+					return
+				}
+			}
 			f.Sig = "wal-bound-one-sync-late-when-truncate-below-min"
 		}
 	}
